@@ -2,13 +2,17 @@
 //! See /verif/DESIGN.md. Invoked through /verif/bin/check.
 
 mod c08;
+mod c09;
+mod c18;
 mod common;
 mod json;
+mod rec;
+mod val;
 
 use common::*;
 
 fn all_families() -> Vec<Box<dyn Family>> {
-  vec![Box::new(c08::C08)]
+  vec![Box::new(c08::C08), Box::new(c18::C18), Box::new(c09::C09)]
 }
 
 fn spec_for(prop: &str) -> Option<CheckSpec> {
@@ -23,6 +27,30 @@ fn spec_for(prop: &str) -> Option<CheckSpec> {
         "posted closures return (premise of the property)".into(),
       ],
       families: vec![FamilySpec { fam: Box::new(c08::C08), quick_runs: 250_000, thorough_runs: 6_000_000 }],
+      quick_cap_s: 60,
+      thorough_cap_s: 900,
+    }),
+    "C09" => Some(CheckSpec {
+      property: "C09",
+      level: "exploration",
+      rule: threaded_rule.to_string(),
+      assumptions: vec![
+        "well-formed finite source scripts with unique items (each delivery is attributable to one emission)".into(),
+        "lock-operation granularity".into(),
+      ],
+      families: vec![FamilySpec { fam: Box::new(c09::C09), quick_runs: 120_000, thorough_runs: 2_500_000 }],
+      quick_cap_s: 60,
+      thorough_cap_s: 900,
+    }),
+    "C18" => Some(CheckSpec {
+      property: "C18",
+      level: "exploration",
+      rule: threaded_rule.to_string(),
+      assumptions: vec![
+        "the executor is a minimal block_on built on the facade Mutex/Condvar whose waker sets a flag and notifies; real executors differ only in when they poll, which spurious wake-ups and eager re-polls cover".into(),
+        "lock-operation granularity".into(),
+      ],
+      families: vec![FamilySpec { fam: Box::new(c18::C18), quick_runs: 200_000, thorough_runs: 4_000_000 }],
       quick_cap_s: 60,
       thorough_cap_s: 900,
     }),
